@@ -590,7 +590,7 @@ func c19Key(part string, e c19Event, kind string, fromUp bool) string {
 	if !fromUp {
 		from = "from-down"
 	}
-	sys := map[string]string{"A": "dev", "E": "dev-watch", "B": "lib"}[part]
+	sys := map[string]string{"A": "dev", "E": "dev-watch", "B": "lib", "L": "dev-live-client"}[part]
 	if part == "E" && kind == "down" {
 		sys = "dev" // the same defect seen through the watcher
 	}
@@ -604,8 +604,9 @@ func c19Key(part string, e c19Event, kind string, fromUp bool) string {
 }
 
 type c19Replay struct {
-	Part   string   `json:"part"` // A | E | B
-	Events []string `json:"events"`
+	Part    string   `json:"part"` // A | E | B | L | S
+	Events  []string `json:"events"`
+	Choices []int    `json:"choices,omitempty"` // part S: the schedule
 }
 
 // ---------------------------------------------------------------------------
@@ -613,16 +614,68 @@ type c19Replay struct {
 
 // c19RunA replays the history on a fresh manager.  harness != "" means the
 // environment failed (nothing is judged).
+// c19LiveClient: a browser tab with the live-reload script keeps one request to /__livereload open for as long as
+// the page is shown.  The client is connected before every edit (a tab reconnects after each reload) and closed
+// before the manager is torn down.
+type c19LiveClient struct{ conn net.Conn }
+
+func c19DialLive(port int) (*c19LiveClient, error) {
+	conn, err := net.DialTimeout("tcp", fmt.Sprintf("127.0.0.1:%d", port), 10*time.Second)
+	if err != nil {
+		return nil, err
+	}
+	if _, err := conn.Write([]byte("GET /__livereload HTTP/1.1\r\nHost: localhost\r\nAccept: text/event-stream\r\n\r\n")); err != nil {
+		conn.Close()
+		return nil, err
+	}
+	// wait for the response head: the handler is running from here on
+	conn.SetReadDeadline(time.Now().Add(30 * time.Second))
+	buf := make([]byte, 512)
+	if _, err := conn.Read(buf); err != nil {
+		conn.Close()
+		return nil, fmt.Errorf("no response head from /__livereload: %v", err)
+	}
+	conn.SetReadDeadline(time.Time{})
+	go io.Copy(io.Discard, conn)
+	return &c19LiveClient{conn}, nil
+}
+
+func (c *c19LiveClient) close() {
+	if c != nil && c.conn != nil {
+		c.conn.Close()
+	}
+}
+
 func c19RunA(events []c19Event) (steps []c19Step, canon string, harness string) {
+	return c19RunAWith(events, false)
+}
+
+func c19RunAWith(events []c19Event, liveClient bool) (steps []c19Step, canon string, harness string) {
 	a, err := c19NewA(false)
 	if err != nil {
 		return nil, "", err.Error()
 	}
 	defer a.close()
+	var clients []*c19LiveClient
+	defer func() {
+		for _, c := range clients {
+			c.close()
+		}
+		if liveClient {
+			time.Sleep(20 * time.Millisecond) // let the handlers see the closed connections before the manager stops its server
+		}
+	}()
 	ref := &c19Ref{expected: "v1", prevUp: true}
 	obs := "v1"
 	class := "v1"
 	for _, e := range events {
+		if liveClient && obs != "down" && obs != "noanswer" {
+			c, err := c19DialLive(a.port)
+			if err != nil {
+				return steps, "", "live-reload client: " + err.Error()
+			}
+			clients = append(clients, c)
+		}
 		if err := c19Edit(a.file, e, false); err != nil {
 			return steps, "", "edit: " + err.Error()
 		}
@@ -792,10 +845,27 @@ type c19CompileCall struct {
 	err  error
 }
 
-type c19Compiler struct{ calls []c19CompileCall }
+type c19Compiler struct {
+	calls []c19CompileCall
+	slow  bool // a compilation takes time: the scheduler may run other threads before and after it reads the file
+	// during runs while the first compilation is in progress (after it has read the file): the next edit arrives and
+	// time passes, with scheduling points in between
+	during func()
+}
 
 func (c *c19Compiler) CompileFile(path string) ([]byte, error) {
+	if c.slow {
+		vrt.SchedPoint("compile:start", nil)
+	}
 	bc, err := c19CompileFile(path)
+	if c.during != nil {
+		f := c.during
+		c.during = nil
+		f()
+	}
+	if c.slow {
+		vrt.SchedPoint("compile:done", nil)
+	}
 	c.calls = append(c.calls, c19CompileCall{path, bc, err})
 	return bc, err
 }
@@ -833,6 +903,100 @@ func (s *c19Server) SetState(st map[string]interface{}) error {
 
 func c19InitialState() map[string]interface{} {
 	return map[string]interface{}{"sessions": 3, "user": "ann"}
+}
+
+// c19Overlap: the library manager with edits that arrive while an earlier reload is still compiling (the debounce
+// timer starts each reload on its own goroutine).  The body is one controlled execution: edits are written and the
+// virtual clock advanced WITHOUT waiting for the manager to go idle, compilations have scheduling points around them;
+// at quiescence the server must hold the most recent valid version on disk, and every Reload must have received
+// bytecode of a successful compilation.
+func c19Overlap(names []string, fail *string, harness *string) func() {
+	return func() {
+		*fail, *harness = "", ""
+		dir, file, err := c19NewDir()
+		if err != nil {
+			*harness = err.Error()
+			return
+		}
+		bc1, err := c19CompileFile(file)
+		if err != nil {
+			*harness = "compile v1: " + err.Error()
+			return
+		}
+		comp := &c19Compiler{slow: true}
+		srv := &c19Server{bytecode: bc1, state: c19InitialState()}
+		rm := hotreload.NewReloadManager([]string{dir}, comp, srv)
+		ctx, cancel := context.WithCancel(context.Background())
+		defer cancel()
+		if err := rm.Start(ctx); err != nil {
+			*harness = "Start: " + err.Error()
+			return
+		}
+		defer func() { rm.Stop(); vrt.WaitIdle() }()
+		vrt.WaitIdle()
+		// A version counts as loaded only if a compilation saw it: an edit overwritten before its reload ran was
+		// never loaded.  Demanded: if the last edit is valid it is what the server holds in the end ("a later valid
+		// edit always takes effect"); otherwise the server holds v1 or one of the valid edits.
+		expected := ""
+		valid := map[string]bool{"v1": true}
+		edit := func(n string) bool {
+			e, _ := c19EventByName(n)
+			if err := c19Edit(file, e, false); err != nil {
+				*harness = "edit: " + err.Error()
+				return false
+			}
+			expected = ""
+			if e.Stage == "valid" {
+				expected = e.Version
+				valid[e.Version] = true
+			}
+			return true
+		}
+		// the later edits arrive one after the other while the reload of the first edit is compiling: after each, the
+		// poll tick and the debounce interval pass, with scheduling points so that the watcher and the reload the
+		// debounce timer starts may run before the first reload goes on
+		comp.during = func() {
+			for _, n := range names[1:] {
+				if !edit(n) {
+					return
+				}
+				vrt.AdvanceNoWait(500 * time.Millisecond) // poll tick
+				vrt.SchedPoint("compile:tick-passed", nil)
+				vrt.AdvanceNoWait(200 * time.Millisecond) // debounce
+				vrt.SchedPoint("compile:debounce-passed", nil)
+			}
+		}
+		if !edit(names[0]) {
+			return
+		}
+		vrt.Advance(500 * time.Millisecond) // poll tick: the watcher sees the first edit and arms the debounce timer
+		vrt.WaitIdle()
+		vrt.Advance(200 * time.Millisecond) // the debounce timer starts the first reload
+		vrt.WaitIdle()
+		vrt.Advance(1000 * time.Millisecond) // a reload that was debounced behind the last edit
+		vrt.WaitIdle()
+		if got := c19Marker(srv.bytecode); (expected != "" && got != expected) || (expected == "" && !valid[got]) {
+			if expected == "" {
+				expected = "none newer than the last valid edit"
+			}
+			var order []string
+			for _, rb := range srv.reloads {
+				order = append(order, c19Marker(rb))
+			}
+			*fail = fmt.Sprintf("stale-version-after-overlapping-reloads: edits %v are on disk (most recent valid version %s) and the manager is idle, but the server holds %s (Reload calls in order: %v)", names, expected, got, order)
+			return
+		}
+		for _, rb := range srv.reloads {
+			ok := false
+			for _, c := range comp.calls {
+				ok = ok || (c.err == nil && bytes.Equal(c.bc, rb))
+			}
+			if !ok {
+				*fail = "reload-with-uncompiled-bytecode: server.Reload received bytecode that no successful compilation produced"
+				return
+			}
+		}
+	}
 }
 
 // c19Visible is what the polling watcher can see of the file.
@@ -999,6 +1163,8 @@ func c19Run(part string, evs []c19Event) (steps []c19Step, canon, harness string
 	switch part {
 	case "A":
 		return c19RunA(evs)
+	case "L":
+		return c19RunAWith(evs, true)
 	case "E":
 		steps, harness = c19RunE(evs, time.Time{})
 		return steps, "", harness
@@ -1087,6 +1253,21 @@ func TestVerif_C19(t *testing.T) {
 		var rp c19Replay
 		if err := vk.LoadReplay(p.Replay, &rp); err != nil {
 			t.Fatal(err)
+		}
+		if rp.Part == "S" {
+			var fail, harness string
+			x := vrt.RunOnce(vrt.Config{NoAutoTimers: true, MaxSteps: 2000000}, rp.Choices, c19Overlap(rp.Events, &fail, &harness))
+			if x.Outcome.Kind != "ok" {
+				fail = "manager-" + x.Outcome.Kind + ": " + strings.SplitN(x.Outcome.Detail, "\n", 2)[0]
+			}
+			ok := fail != "" && harness == ""
+			fmt.Printf("replay S %v %v -> %q %s\n", rp.Events, rp.Choices, fail, harness)
+			if ok {
+				res.Violate("lib-overlap/"+strings.SplitN(fail, ":", 2)[0]+"/"+strings.Join(rp.Events, ","), fail, rp)
+			}
+			res.Replayed = &ok
+			res.Write(p)
+			return
 		}
 		var evs []c19Event
 		for _, n := range rp.Events {
@@ -1214,6 +1395,98 @@ func TestVerif_C19(t *testing.T) {
 			}
 		}
 		res.Sample(2, map[string]any{"part": "watcher", "history": c19Names(h), "steps": steps})
+	}
+
+	// part L: the dev server with a live-reload client connected during every edit (each reload then waits out the
+	// 2 s shutdown grace of the old server, so only a few fixed histories)
+	lHist := [][]string{{"v2"}, {"parser-error", "v2"}, {"v2", "semantic-error"}, {"v2", "v3"}}
+	if p.Thorough {
+		lHist = append(lHist, []string{"delete", "v3"}, []string{"lexer-error", "static-root-error", "v2"}, []string{"v2", "v3", "v2"}, []string{"empty", "v3"})
+	}
+	res.Bounds["live_client_histories"] = len(lHist)
+	for _, h := range lHist {
+		idx++
+		if !p.Mine(idx) {
+			continue
+		}
+		if p.Expired() {
+			res.Exhaustive = false
+			break
+		}
+		var evs []c19Event
+		ok := true
+		for _, n := range h {
+			e, _ := c19EventByName(n)
+			found := false
+			for _, a := range alphaA {
+				found = found || a.Name == n
+			}
+			ok = ok && found
+			evs = append(evs, e)
+		}
+		if !ok {
+			continue
+		}
+		steps, _, harness := c19Run("L", evs)
+		if harness != "" {
+			harnessFailures++
+			res.Note("live-client history %v not run: %s", h, harness)
+			res.Exhaustive = false
+			continue
+		}
+		res.Evaluations++
+		res.Transitions += int64(len(steps))
+		res.Count("live_client_histories_run", 1)
+		c19Report(res, "L", evs, steps, true)
+		res.Sample(12, map[string]any{"part": "dev server with a live-reload client connected", "history": h, "steps": steps})
+	}
+
+	// part S: overlapping reloads in the library manager, every schedule up to the preemption bound
+	sBound := 2
+	if p.Thorough {
+		sBound = 3
+	}
+	res.Bounds["overlap_preemption_bound"] = sBound
+	for _, names := range [][]string{{"v2", "v3"}, {"v2", "parser-error"}, {"parser-error", "v2"}, {"v2", "v3", "v2"}} {
+		idx++
+		if !p.Mine(idx) {
+			continue
+		}
+		if p.Expired() {
+			res.Exhaustive = false
+			break
+		}
+		var fail, harness string
+		outcomes := vk.DistinctSet{}
+		st := vrt.Explore(vrt.Config{MaxPreempt: sBound, NoAutoTimers: true, MaxSteps: 2000000, Deadline: p.Deadline}, c19Overlap(names, &fail, &harness), func(x *vrt.Exec) bool {
+			f := fail
+			if x.Outcome.Kind != "ok" {
+				d := x.Outcome.Detail
+				if i := strings.IndexByte(d, '\n'); i >= 0 {
+					d = d[:i]
+				}
+				f = "manager-" + x.Outcome.Kind + ": " + d
+			}
+			if harness != "" {
+				harnessFailures++
+				return true
+			}
+			outcomes.Add(strings.SplitN(f, ":", 2)[0])
+			if f != "" {
+				res.Violate("lib-overlap/"+strings.SplitN(f, ":", 2)[0]+"/"+strings.Join(names, ","), f+" schedule="+vrt.FormatChoices(x.Choices),
+					c19Replay{Part: "S", Events: names, Choices: x.Choices})
+			}
+			return true
+		})
+		res.Evaluations += int64(st.Execs)
+		res.Transitions += int64(st.Transitions)
+		res.States += int64(st.States)
+		res.Count("overlap_schedules", int64(st.Execs))
+		res.Sample(16, map[string]any{"part": "library manager, overlapping reloads", "edits": names, "schedules": st.Execs, "max_choice_points": st.MaxPoints, "outcomes": outcomes.Len()})
+		if !st.Complete {
+			res.Exhaustive = false
+			res.Note("overlap scenario %v stopped by %s after %d schedules", names, st.StoppedBy, st.Execs)
+		}
 	}
 
 	incomplete := map[string]int{}
